@@ -283,6 +283,12 @@ impl<L: Localize> OpeningHours<L> {
     /// assert_eq!(oh.state(date_2), RuleKind::Unknown);
     /// ```
     pub fn state(&self, current_time: L::DateTime) -> RuleKind {
+        // Nothing is ever open past the supported range, and adding a minute to the largest
+        // representable dates would overflow.
+        if self.ctx.locale.naive(current_time.clone()) >= DATE_END {
+            return RuleKind::Closed;
+        }
+
         self.iter_range(current_time.clone(), current_time + Duration::minutes(1))
             .next()
             .map(|dtr| dtr.kind)
